@@ -250,12 +250,12 @@ PROPS["C07"] = dict(
 )
 PROPS["C13"] = dict(
     claim=dict(
-        text="Machine-checked proof (Coq 8.16): each rejected class makes registration panic in the model - nil handler, no method, a method that is not exactly one of the nine, options after routes, 63 or more handlers, an uncompilable expression, a number of capturing groups different from the number of variables, an optional part not at the end (C13_rejects_*); every router reachable by accepted registrations is well formed (ids within range, group count = name count: C13_wf_initial, C13_wf_preserved) and on a well-formed router no method string and no path string makes QuickMatch panic, with any options incl. caching without routes (C13_total_lookup, using totality of formatPath). F05 is kept as a refuted witness. End to end (SysEnd.v): on a router built by a registration program with a printable table every request - any '/'-free method, any path text - after any history is answered: no lookup panic, no unsupported expression, no route id outside the table (C13_end_to_end_total, _history). Tie to the code: a malformed-definition stream (incl. handler counts around 63/127/128/255/256) is registered against the real router, accept/reject compared with the model where the regex is inside the parser subset; for all accepted definitions hostile lookups (empty, white space, non-UTF-8, long) must not panic (direct oracle, independent of the model).",
+        text="Machine-checked proof (Coq 8.16): each rejected class makes registration panic in the model - nil handler, no method, a method that is not exactly one of the nine, options after routes, 63 or more handlers, an uncompilable expression, a number of capturing groups different from the number of variables, an optional part not at the end (C13_rejects_*); every router reachable by accepted registrations is well formed (ids within range, group count = name count: C13_wf_initial, C13_wf_preserved) and on a well-formed router no method string and no path string makes QuickMatch panic, with any options incl. caching without routes (C13_total_lookup, using totality of formatPath). F05 is kept as a refuted witness. End to end (SysEnd.v): on a router built by a registration program with a printable table every request - any '/'-free method, any path text - after any history is answered: no lookup panic, no unsupported expression, no route id outside the table (C13_end_to_end_total, _history). Options (Options.v, after repair F21): however the caching options are applied - New / WithOptions batches, option functions called directly with the router, before or after routes, in any order - a lookup finds a route-cache container whenever caching is on, with the capacity configured last (C13_options_container, C13_options_capacity); before the repair a directly applied EnableCaching left it nil (C13_legacy_F21_refuted). Tie to the code: a malformed-definition stream (incl. handler counts around 63/127/128/255/256) is registered against the real router, accept/reject compared with the model where the regex is inside the parser subset; for all accepted definitions hostile lookups (empty, white space, non-UTF-8, long) must not panic (direct oracle, independent of the model).",
         note="PARTIAL: the theorem covers pattern strings whose regex text is inside the modelled syntax subset (RxParse.v); full Go regexp syntax is only explored by the direct no-panic oracle. Trusted: Coq kernel, extraction, driver, harness; Go regexp modelled.",
         technique="Coq proof: well-formedness invariant of the router tables implies panic-free lookup; rejection lemmas; differential + direct no-panic oracle"),
     n=dict(quick=6000, thorough=60000),
     consts=["any-methods", "abort-index"],
-    theorems=["C13_rejects_nil_handler", "C13_rejects_unknown_method", "C13_rejects_capturing_group", "C13_wf_preserved", "C13_total_lookup", "C13_end_to_end_total", "C13_end_to_end_total_history"],
+    theorems=["C13_rejects_nil_handler", "C13_rejects_unknown_method", "C13_rejects_capturing_group", "C13_wf_preserved", "C13_total_lookup", "C13_end_to_end_total", "C13_end_to_end_total_history", "C13_options_container", "C13_options_capacity", "C13_legacy_F21_refuted"],
     rule="case = 0..3 well-formed routes + 0..4 definitions from a malformed-pattern stream (unbalanced braces/brackets, capturing groups, optional part not at the end, "
          "uncompilable regexes, stray metacharacters, mutations) with near-miss method names and occasional nil handlers, random options (incl. caching without "
          "routes, InterceptAll), 12 hostile lookups (empty, white-space, non-UTF-8, very long, encoded). Observed: accept/reject per definition, panic per lookup. "
@@ -281,12 +281,12 @@ PROPS["C20"] = dict(
 
 PROPS["C16"] = dict(
     claim=dict(
-        text="Machine-checked proof (Coq 8.16): for every subset of the seven actions visited in any order, every per-action middleware map, base path and mode, Resource (a Group around one AddNamed + Route.Use per implemented action) registers exactly one route per implemented action with the documented methods and name and only that action's middleware, under prefix ++ action path, and nothing else (C16_table, through the lexical-scoping theorem of C12); a different visiting order only permutes the table (C16_order_independent); for every clean prefix the paths are the documented /res, /res/create, /res/{id}, /res/{id}/edit (C16_documented_paths); registration succeeds (C16_accepted); non-pointer / non-struct controllers are rejected (C16_guard). That GET /res/create is served by create and never by show is C01's static-before-dynamic rule, and the lookup tie below checks it. Tie to the code: 256 code-generated controller types (one per subset, with and without Uses(); plus controllers with action-named methods of the wrong signature, nesting in groups with middleware) are registered through the real Resource in Go's random map order; Routes()/NamedRoutes() and the handler, per-action middleware and Allow header of method x path probes are compared with the extracted model (fixed order) and the documented table. Added later (RestLookup.v): on the string-level router built from the texts Resource registers, for any printable prefix, a request is served by action a exactly when a is implemented, allows the method and the path has a's documented shape, except that GET G/create is served by Create and never by Show (C16_lookup_table, C16_create_never_show), and the serving action does not depend on the order in which Go's map iteration registered the table (C16_lookup_order_independent, C16_lookup_order_independent_resource).",
+        text="Machine-checked proof (Coq 8.16): for every subset of the seven actions visited in any order, every per-action middleware map, base path and mode, Resource (a Group around one AddNamed + Route.Use per implemented action) registers exactly one route per implemented action with the documented methods and name and only that action's middleware, under prefix ++ action path, and nothing else (C16_table, through the lexical-scoping theorem of C12); a different visiting order only permutes the table (C16_order_independent); for every clean prefix the paths are the documented /res, /res/create, /res/{id}, /res/{id}/edit (C16_documented_paths); registration succeeds (C16_accepted); non-pointer / non-struct controllers are rejected (C16_guard). That GET /res/create is served by create and never by show is C01's static-before-dynamic rule, and the lookup tie below checks it. Base paths with path variables (RestOrder.v, after repair F22): all routes of the resource are dynamic then and Resource registers the actions in the canonical order; for every printable pattern prefix, GET of an instance of prefix/create is never handled by Show (C16_create_never_show_dynamic), and is handled by Create when the prefix variables are default ones (C16_create_selected_dynamic, C16_resource_create_before_show; with a variable that spans '/' the Index route may match first); with Show registered first - possible before the repair - it was handled by Show with id=create (C16_legacy_F22_refuted). Tie to the code: 256 code-generated controller types (one per subset, with and without Uses(); plus controllers with action-named methods of the wrong signature, nesting in groups with middleware) are registered through the real Resource in Go's random map order; Routes()/NamedRoutes() and the handler, per-action middleware and Allow header of method x path probes are compared with the extracted model (fixed order) and the documented table. Added later (RestLookup.v): on the string-level router built from the texts Resource registers, for any printable prefix, a request is served by action a exactly when a is implemented, allows the method and the path has a's documented shape, except that GET G/create is served by Create and never by Show (C16_lookup_table, C16_create_never_show), and the serving action does not depend on the order in which Go's map iteration registered the table (C16_lookup_order_independent, C16_lookup_order_independent_resource).",
         note="reflect (MethodByName, type name, Kind) is modelled as inputs. Lookup results for the table are decided by the router model of C01/C06 (extracted and compared on probes), not re-proved here. Trusted: Coq kernel, extraction, driver, harness.",
         technique="Coq proof: Resource's registrations = documented table for every subset and order (via lexical scoping); extracted model vs implementation differential check over all 128 subsets"),
     n=dict(quick=1000, thorough=3000),
     consts=["rest-actions"],
-    theorems=["C16_table", "C16_order_independent", "C16_documented_paths", "C16_accepted", "C16_guard"],
+    theorems=["C16_table", "C16_order_independent", "C16_documented_paths", "C16_accepted", "C16_guard", "C16_create_never_show_dynamic", "C16_create_selected_dynamic", "C16_resource_create_before_show", "C16_legacy_F22_refuted"],
     rule="case = one of the 128 controller types (code-generated, one per subset of the seven actions) with or without Uses() (per-action middleware for Index/Show/"
          "Edit/Delete plus a key that is no action), base path in {/, /api/, '', /v1/admin/, api, /a.b/}, occasionally StrictLastSlash, occasionally a non-pointer or "
          "pointer-to-non-struct controller; probes = GET and a random third of the other methods on 10 paths under and next to the prefix. Registration order is Go's "
@@ -398,10 +398,10 @@ def _race_stress(ctx):
 
 PROPS["C03"] = dict(
     claim=dict(
-        text="PARTIAL. Machine-checked proof (Coq 8.16) over interleaving models of the state requests share: (A) for every router with a coherent cache, every family of request threads and EVERY schedule of their atomic cache actions (Get; later, after the pure dynamic match, Set - other requests in between), the cache stays coherent and each thread answers exactly what it answers alone on the cache-free router (C03_lookups_independent, C03_finished_thread_solo); (B) on a slice memory model where append writes into shared spare capacity, with the fresh-slice chain assembly of the current code every finished request ran exactly globals ++ its route middleware ++ its main handler, for every schedule, growth policy and globals slice (C03_chains_independent); (C) the context pool never holds a context twice nor one in use when every put releases a context in use (C03_pool); (D) no two accesses of different requests conflict except under the exclusive cache lock (C03_race_free, over footprint annotations of the request-time actions). The defects repaired in /repo (shared-capacity append F11, Get under RLock F12, router fields assigned during requests F13, double pool release F16) are kept as refuted witnesses against legacy variants of the models. Tie to the code: a controlled scheduler runs 2..3 requests in goroutines whose handlers yield at every boundary and drives sampled (thorough: all short) schedules over router shapes with several Use calls, group/route middleware, tiny caches, 404/405/HEAD; every request's trace, parameters and response must equal its solo run on a fresh identical router; plus a race-detector stress run whose reports inside package rux are violations.",
+        text="PARTIAL. Machine-checked proof (Coq 8.16) over interleaving models of the state requests share: (A) for every router with a coherent cache, every family of request threads and EVERY schedule of their atomic cache actions (Get; later, after the pure dynamic match, Set - other requests in between), the cache stays coherent and each thread answers exactly what it answers alone on the cache-free router (C03_lookups_independent, C03_finished_thread_solo); (B) on a slice memory model where append writes into shared spare capacity, with the fresh-slice chain assembly of the current code every finished request ran exactly globals ++ its route middleware ++ its main handler, for every schedule, growth policy and globals slice (C03_chains_independent); (C) the context pool never holds a context twice nor one in use when every put releases a context in use (C03_pool); (D) no two accesses of different requests conflict except under the exclusive cache lock (C03_race_free, over footprint annotations of the request-time actions). The defects repaired in /repo (shared-capacity append F11, Get under RLock F12, router fields assigned during requests F13, double pool release F16) are kept as refuted witnesses against legacy variants of the models. Context.Copy (CopyCtx.v, after repair F23): on the slice heap, for every growth policy and every later sequence of Reset / AddError on the pooled context, a copy still reads the errors it was taken with (C03_copy_keeps_errors); before the repair it shared the backing array and read the next request's error (C03_legacy_F23_refuted). Tie to the code: a controlled scheduler runs 2..3 requests in goroutines whose handlers yield at every boundary and drives sampled (thorough: all short) schedules over router shapes with several Use calls, group/route middleware, tiny caches, 404/405/HEAD; every request's trace, parameters and response must equal its solo run on a fresh identical router; plus a race-detector stress run whose reports inside package rux are violations.",
         note="PARTIAL: the Go memory model below the model's action granularity, sync.Pool's and sync.RWMutex's own correctness and the completeness of the footprint annotations are not proved; the four models are separate (no single product simulation of the dispatcher); the race-detector run and the scheduler runs are exploration. Trusted: Coq kernel, harness (scheduler, race build), Go race detector.",
         technique="Coq proofs over interleaving models (schedule induction with coherence / heap / pool invariants, footprint case analysis) + controlled-scheduler differential runs + race-detector stress"),
-    theorems=["C03_lookups_independent", "C03_finished_thread_solo", "C03_chains_independent", "C03_pool", "C03_race_free"],
+    theorems=["C03_lookups_independent", "C03_finished_thread_solo", "C03_chains_independent", "C03_pool", "C03_race_free", "C03_copy_keeps_errors", "C03_legacy_F23_refuted"],
     n=dict(quick=600, thorough=6000),
     consts=[],
     extra=[("race-stress", _race_stress)],
